@@ -89,10 +89,13 @@ fn statements() {
         lit("x", &format!("{}string", xs)), lit("", &format!("{}string", xs)), lit("x", &format!("{}integer", xs)), lit("x", &format!("{}token", xs)),
         lit("x", "https://www.w3.org/2001/XMLSchema#string"), lit("x", "http://www.w3.org/2001/XMLSchema#strin"), lit("x", "http://www.w3.org/2001/XMLSchema#String"),
         lit("x", "urn:x://www.w3.org/2001/XMLSchema#string"), lit("x", "http://example.org/ns#string"),
-        lang("x", "en"), lang("", "en"), lang("x", "EN-us"), lit("a\"b\\c\nd", &format!("{}string", xs)), lit("é😀", "x:d"),
+        lang("x", "en"), lang("", "en"), lang("x", "EN-us"), lang("x", "de-CH-1996"), lang("x", "en-Latn-US-x-private"), lang("x", "zh-Hant-TW-u-ca-chinese-x-a"), lit("a\"b\\c\nd", &format!("{}string", xs)), lit("é😀", "x:d"),
         // surrounding / inner white space is part of the lexical form, whatever the datatype
         lit(" 7", &format!("{}integer", xs)), lit("7 ", &format!("{}integer", xs)), lit("\t7\n", &format!("{}integer", xs)), lit(" ", "x:d"), lit("\u{a0}7\u{2028}", "x:d"),
         lit(" x ", &format!("{}string", xs)), lang(" x ", "en"),
+        // every C0 control, DEL, NEL, LS, BOM, non-characters: whatever escape is chosen, the same code point comes back
+        lit("\u{0}\u{1}\u{2}\u{3}\u{4}\u{5}\u{6}\u{7}", "x:d"), lit("\u{8}", "x:d"), lit("\u{9}", "x:d"), lit("\u{b}", "x:d"), lit("\u{c}", "x:d"), lit("a\u{b}b\u{c}c\u{8}d\u{9}e", &format!("{}string", xs)),
+        lit("\u{e}\u{f}\u{10}\u{1a}\u{1b}\u{1f}\u{7f}", "x:d"), lang("\u{b}", "en"), lit("\u{85}\u{2028}\u{feff}\u{fffe}\u{ffff}", "x:d"),
         // IRIs are opaque: dot segments, empty segments, percent-escapes, case are kept as written
         iri("http://example.org/doc/../b"), iri("http://example.org/doc/./b"), iri("http://example.org/b"), iri("http://example.org/doc/sub/.."), iri("http://example.org//a/%7Eb"), iri("http://example.org/a/~b"), iri("HTTP://EXAMPLE.org/A"),
         lit("x", "http://example.org/dt/../string"),
